@@ -481,6 +481,9 @@ class TimeBase(np.ndarray):
     def __setattr__(self, name, value):
         raise AttributeError(f"{self.__class__.__name__} object does not support item assignment ")
 
+    def __delattr__(self, name):
+        raise AttributeError(f"{self.__class__.__name__} object does not support item deletion")
+
     def __copy__(self):
         return self.create(val=self.val.copy(), fmt=self.fmt, scale=self.scale, _jd1=self.jd1, _jd2=self.jd2)
 
